@@ -20,8 +20,16 @@ import RModel.Props.C02ren
                                `C02ren.SiblingDestsDistinct`; `shared_destination_refused` is the other direction;
    * `same_style_name`         name = prefix ++ key ++ suffix with a single occurrence of the key that is found first
                                ↦ prefix ++ value ++ suffix (key/value = the two terms rendered in one style);
+                               `same_style_name_all_variants` is the same for the other shape of
+                               `determine_filename_replacement` (`Tables.allVariants`, generated from the source:
+                               `Gen.renameAllVariantsInName`); every general theorem holds for both shapes;
+   * `no_variant_left`         shape "every variant": a byte of the old name is copied only where no variant starts,
+                               every other position belongs to a rewritten occurrence (when coercion declines);
    * `sources_distinct_any_roots`  since 4d2e5a7 (`dedup_renames`) no node is scheduled twice whatever the search roots
                                (nested, repeated); `dedup_keeps_every_node`: and none is lost;
+   * `destinations_distinct_any_roots`  since 0109402 (`Tables.crossRootCheck`, generated) an accepted multi-root scan has
+                               pairwise distinct destinations also across roots; `cross_root_before_and_after_fix`
+                               is the repaired defect (two files as search paths) on the shape without the check;
    * `apply_places_everything` an accepted plan for a well-formed tree and ANY list of search roots whose
                                destinations are free on disk satisfies all five guards of `C02ren.renamePhase_ok`:
                                STEP 3 succeeds, every node ends at `finalPath rs q`, nothing else moves.
@@ -39,7 +47,8 @@ open B Fs Apply RenamePlan RenamePlanL
 /-- the tables of the current source -/
 def T0 : Tables :=
   { exts := Gen.coercionExtensions, extMax := Gen.coercionExtMaxLen, reserved := Gen.windowsReserved,
-    isAcr := (CaseModel.acrOf Gen.defaultAcronyms).isAcr }
+    isAcr := (CaseModel.acrOf Gen.defaultAcronyms).isAcr, allVariants := Gen.renameAllVariantsInName,
+    crossRootCheck := Gen.crossRootConflictCheck }
 
 -- guards -------------------------------------------------------------------------------------------------------
 
@@ -159,13 +168,38 @@ theorem newName_safe (T : Tables) (o : Opts) (vmap : List VEntry) (hv : GoodVals
         have : x = 46 := by simpa using hin
         rw [this] at hxa
         exact absurd hxa (by decide)
-    have chosen : GoodVal (if o.withSearch then v.amb.getD v.val else v.val) := by
+    have goodRepl : ∀ w ∈ vmap, GoodVal (replOf w) := by
+      intro w hw
+      obtain ⟨_, hwv, hwa⟩ := hv w hw
+      unfold replOf
+      cases ha : w.amb with
+      | none => simpa using hwv
+      | some a => simpa using hwa a ha
+    -- … and so is the scan over all variants
+    have scanSafe : SafeName (rewriteAll vmap name) := by
+      obtain ⟨w, hw, hin⟩ := rewriteGo_has vmap v hmem hk name 0 hcon
+      obtain ⟨hns, hal⟩ := goodRepl w hw
+      obtain ⟨x, hx, hxa⟩ := List.any_eq_true.1 hal
+      have hin' : x ∈ rewriteAll vmap name := hin x hx
+      refine ⟨?_, ?_, ?_⟩
+      · intro h0; rw [h0] at hin'; cases hin'
+      · intro hm
+        rcases rewriteGo_mem vmap name 0 _ hm with hm | ⟨u, hu, hm⟩
+        · exact hs hm
+        · exact (goodRepl u hu).1 hm
+      · intro h1
+        rw [h1] at hin'
+        have : x = 46 := by simpa using hin'
+        rw [this] at hxa
+        exact absurd hxa (by decide)
+    have plainNameSafe : SafeName (plainName T o vmap v name) := by
+      unfold plainName
       split
-      · cases ha : v.amb with
-        | none => simpa using hval
-        | some a => simpa using hamb a ha
-      · exact hval
-    have candSafe : SafeName (candidate T o v name) := by
+      · split
+        · exact scanSafe
+        · exact plainSafe _ (goodRepl v hmem)
+      · exact plainSafe _ hval
+    have candSafe : SafeName (candidate T o vmap v name) := by
       unfold candidate
       simp only
       split
@@ -173,9 +207,9 @@ theorem newName_safe (T : Tables) (o : Opts) (vmap : List VEntry) (hv : GoodVals
         rcases hc with hc | hc
         · rw [hc] at hco; cases hco
         · cases ha : applyCoercion T name v.key v.val with
-          | none => simpa using plainSafe _ chosen
+          | none => simpa using plainNameSafe
           | some c => simpa using hc name v c hmem ha
-      · exact plainSafe _ chosen
+      · exact plainNameSafe
     simp only at h
     split at h
     · cases h
@@ -272,10 +306,31 @@ theorem sources_distinct_any_roots (T : Tables) (o : Opts) (vmap : List VEntry) 
 theorem dedup_keeps_every_node (T : Tables) (o : Opts) (vmap : List VEntry) (ess : List (List Entry))
     (raw rs : List Ren) (hraw : planLoop T o vmap ess = .ok raw) (h : planMulti T o vmap ess = .ok rs) :
     List.Sublist rs raw ∧ ∀ r ∈ raw, ∃ r' ∈ rs, r'.path = r.path := by
-  unfold planMulti at h
-  rw [hraw] at h
-  cases h
+  obtain ⟨raw', hraw', hrs⟩ := planMulti_ok h
+  rw [hraw] at hraw'
+  cases hraw'
+  subst hrs
   exact ⟨dedupRens_sublist raw, dedupRens_cover raw⟩
+
+/-- DISTINCT DESTINATIONS FOR ANY ROOT LIST, at the level of the scan (what `renamify plan` stores; no root filter).
+    Since 0109402 (`T.crossRootCheck`) the merged list of all roots is checked once more, so an accepted multi-root
+    plan has pairwise distinct destinations even when the colliding sources lie under different roots — two files
+    given as search paths, two sibling directories: `r.newPath = r'.newPath → r.path = r'.path`. -/
+theorem destinations_distinct_any_roots (T : Tables) (o : Opts) (vmap : List VEntry) (ess : List (List Entry))
+    (rs : List Ren) (hc : T.crossRootCheck = true) (h : planMulti T o vmap ess = .ok rs) :
+    C02ren.DistinctSources rs ∧
+    ∀ r ∈ rs, ∀ r' ∈ rs, r.newPath ≠ [] → r.newPath = r'.newPath → r.path = r'.path := by
+  obtain ⟨raw, _, hrs⟩ := planMulti_ok h
+  refine ⟨by rw [hrs]; exact dedupRens_distinct raw, sharedDest_false (planMulti_checked hc h)⟩
+
+/-- … and conversely two renames of different nodes with one destination refuse the scan -/
+theorem cross_root_shared_destination_refused (T : Tables) (o : Opts) (vmap : List VEntry)
+    (ess : List (List Entry)) (raw : List Ren) (hc : T.crossRootCheck = true)
+    (hraw : planLoop T o vmap ess = .ok raw) (hs : sharedDest (dedupRens raw) = true) :
+    planMulti T o vmap ess = .error 1 := by
+  unfold planMulti
+  rw [hraw]
+  simp [hc, hs]
 
 /-- the guards of `C02ren.renamePhase_ok` hold for every plan the planner accepts, for any list of search roots -/
 theorem accepted_guards (T : Tables) (o : Opts) (vmap : List VEntry) (t : Tree) (roots : List Path) (rs : List Ren)
@@ -352,25 +407,20 @@ theorem apply_places_everything (T : Tables) (o : Opts) (vmap : List VEntry) (t 
 
 -- 6. same style ------------------------------------------------------------------------------------------------------------
 
-/-- SAME-STYLE NAME.  `name = pfx ++ key ++ sfx`, where `key ↦ val` is the row that is found first for this name
-    (for `key = toStyle A ws_s st`, `val = toStyle A ws_r st` this row exists by `C18.variant_table`), the key
-    occurs only there, and coercion is off, declines, or agrees: the new name is `pfx ++ val ++ sfx` — the term
-    rewritten in the same style, affixes and extension untouched. -/
-theorem same_style_name (T : Tables) (o : Opts) (vmap : List VEntry) (pfx sfx key val : Bytes) (hk : key ≠ [])
+/-- core of the same-style theorems: once the name before coercion is `pfx ++ val ++ sfx` and coercion is off,
+    declines, or agrees, that is the new name -/
+theorem same_style_core (T : Tables) (o : Opts) (vmap : List VEntry) (pfx sfx key val : Bytes)
     (hfirst : firstKey vmap (pfx ++ (key ++ sfx)) = some { key := key, val := val, amb := none })
-    (hearly : ∀ k, k < pfx.length → key.isPrefixOf ((pfx ++ (key ++ sfx)).drop k) = false)
-    (hlate : containsSub sfx key = false)
+    (hplain : plainName T o vmap { key := key, val := val, amb := none } (pfx ++ (key ++ sfx)) = pfx ++ (val ++ sfx))
     (hco : o.coerce = false ∨ applyCoercion T (pfx ++ (key ++ sfx)) key val = none ∨
            applyCoercion T (pfx ++ (key ++ sfx)) key val = some (pfx ++ (val ++ sfx)))
     (hne : val ≠ key) :
     newNameFor T o vmap (pfx ++ (key ++ sfx)) = some (pfx ++ (val ++ sfx)) := by
-  have hplain : ∀ b : Bool, replaceAll (pfx ++ (key ++ sfx)) key
-      (if b then (none : Option Bytes).getD val else val) = pfx ++ (val ++ sfx) := by
-    intro b; cases b <;> exact replaceAll_single pfx key val sfx hk hearly hlate
-  have hcand : candidate T o { key := key, val := val, amb := none } (pfx ++ (key ++ sfx)) = pfx ++ (val ++ sfx) := by
+  have hcand : candidate T o vmap { key := key, val := val, amb := none } (pfx ++ (key ++ sfx)) =
+      pfx ++ (val ++ sfx) := by
     unfold candidate
     simp only
-    rw [hplain o.withSearch]
+    rw [hplain]
     rcases hco with h | h | h
     · rw [h]; rfl
     · rw [h]; cases o.coerce <;> rfl
@@ -381,6 +431,85 @@ theorem same_style_name (T : Tables) (o : Opts) (vmap : List VEntry) (pfx sfx ke
   have : (pfx ++ (val ++ sfx) == pfx ++ (key ++ sfx)) = false := by
     simpa using fun h => hne h
   rw [this]; simp
+
+/-- SAME-STYLE NAME (shape "first key only", the source as it is while `Gen.renameAllVariantsInName = false`).
+    `name = pfx ++ key ++ sfx`, where `key ↦ val` is the row that is found first for this name
+    (for `key = toStyle A ws_s st`, `val = toStyle A ws_r st` this row exists by `C18.variant_table`), the key
+    occurs only there, and coercion is off, declines, or agrees: the new name is `pfx ++ val ++ sfx` — the term
+    rewritten in the same style, affixes and extension untouched. -/
+theorem same_style_name (T : Tables) (o : Opts) (vmap : List VEntry) (pfx sfx key val : Bytes) (hk : key ≠ [])
+    (hshape : T.allVariants = false)
+    (hfirst : firstKey vmap (pfx ++ (key ++ sfx)) = some { key := key, val := val, amb := none })
+    (hearly : ∀ k, k < pfx.length → key.isPrefixOf ((pfx ++ (key ++ sfx)).drop k) = false)
+    (hlate : containsSub sfx key = false)
+    (hco : o.coerce = false ∨ applyCoercion T (pfx ++ (key ++ sfx)) key val = none ∨
+           applyCoercion T (pfx ++ (key ++ sfx)) key val = some (pfx ++ (val ++ sfx)))
+    (hne : val ≠ key) :
+    newNameFor T o vmap (pfx ++ (key ++ sfx)) = some (pfx ++ (val ++ sfx)) := by
+  refine same_style_core T o vmap pfx sfx key val hfirst ?_ hco hne
+  unfold plainName replOf
+  rw [hshape]
+  cases o.withSearch <;> exact replaceAll_single pfx key val sfx hk hearly hlate
+
+/-- SAME-STYLE NAME (shape "every variant", `T.allVariants = true`, with search/replace): no variant starts inside
+    `pfx` or `sfx` and `key ↦ val` is the first row that starts at `key ++ sfx`: the new name is
+    `pfx ++ val ++ sfx`. -/
+theorem same_style_name_all_variants (T : Tables) (o : Opts) (vmap : List VEntry) (pfx sfx key val : Bytes)
+    (hshape : T.allVariants = true) (hws : o.withSearch = true)
+    (hfirst : firstKey vmap (pfx ++ (key ++ sfx)) = some { key := key, val := val, amb := none })
+    (hpfx : ∀ k, k < pfx.length → startsHere vmap ((pfx ++ (key ++ sfx)).drop k) = none)
+    (hhere : startsHere vmap (key ++ sfx) = some { key := key, val := val, amb := none })
+    (hsfx : ∀ k, k < sfx.length → startsHere vmap (sfx.drop k) = none)
+    (hco : o.coerce = false ∨ applyCoercion T (pfx ++ (key ++ sfx)) key val = none ∨
+           applyCoercion T (pfx ++ (key ++ sfx)) key val = some (pfx ++ (val ++ sfx)))
+    (hne : val ≠ key) :
+    newNameFor T o vmap (pfx ++ (key ++ sfx)) = some (pfx ++ (val ++ sfx)) := by
+  refine same_style_core T o vmap pfx sfx key val hfirst ?_ hco hne
+  unfold plainName rewriteAll
+  rw [hshape, hws]
+  simp only [if_true]
+  rw [rewriteGo_prefix vmap pfx (key ++ sfx) hpfx]
+  congr 1
+  have hk : key ≠ [] := (startsHere_some hhere).2.1
+  cases hks : key ++ sfx with
+  | nil => exact absurd (List.append_eq_nil_iff.1 hks).1 hk
+  | cons c cs =>
+    rw [hks] at hhere
+    obtain ⟨rest, hcut, hrw⟩ := rewriteGo_occ vmap _ c cs hhere
+    simp only at hcut
+    have hrest : rest = sfx := by
+      rw [← hks] at hcut; exact (List.append_cancel_left hcut).symm
+    rw [hrw, hrest, rewriteGo_noOcc vmap sfx hsfx]
+    rfl
+
+-- 6b. nothing is left over (shape "every variant") -----------------------------------------------------------------------
+
+/-- NO OCCURRENCE LEFT.  With the shape "every variant" (`T.allVariants = true`, search/replace given) the name
+    before coercion is the old name cut into occurrences of variants — each replaced by its text — and single
+    bytes that are copied, and a byte is copied only at a position where no variant starts: every occurrence of
+    every enabled variant that does not overlap an earlier one is rewritten.  When coercion is off or declines,
+    this is the planned name. -/
+theorem no_variant_left (T : Tables) (o : Opts) (vmap : List VEntry) (name n : Bytes)
+    (hshape : T.allVariants = true) (hws : o.withSearch = true)
+    (hco : o.coerce = false ∨ ∀ v ∈ vmap, applyCoercion T name v.key v.val = none)
+    (h : newNameFor T o vmap name = some n) : Rewritten vmap name n := by
+  unfold newNameFor at h
+  cases hf : firstKey vmap name with
+  | none => rw [hf] at h; cases h
+  | some v =>
+    rw [hf] at h
+    have hmem : v ∈ vmap := List.mem_of_find?_eq_some hf
+    have hcand : candidate T o vmap v name = rewriteAll vmap name := by
+      unfold candidate plainName
+      rw [hshape, hws]
+      simp only [if_true]
+      rcases hco with hc | hc
+      · rw [hc]; rfl
+      · rw [hc v hmem]; cases o.coerce <;> rfl
+    simp only [hcand] at h
+    split at h
+    · cases h
+    · cases h; exact rewriteAll_spec vmap name.length name (Nat.le_refl _)
 
 -- 7. non-vacuity: a three-level tree with the term in several components and styles -----------------------------
 
@@ -453,11 +582,24 @@ theorem example_same_style :
     newNameFor T0 o0 vm0 b!"foo_bars.txt" = some b!"baz_quxs.txt" ∧
     newNameFor T0 o0 vm0 b!"foobar.txt" = none := by decide +kernel
 
-/-- the hypotheses of `same_style_name` are satisfiable -/
-example : newNameFor T0 { o0 with coerce := false } vm0 (b!"my-" ++ (b!"FooBar" ++ b!".txt")) =
+/-- the two shapes of `determine_filename_replacement`, fixed independently of the generated flag -/
+def T0first : Tables := { T0 with allVariants := false }
+def T0all : Tables := { T0 with allVariants := true }
+
+/-- the hypotheses of `same_style_name` are satisfiable … -/
+example : newNameFor T0first { o0 with coerce := false } vm0 (b!"my-" ++ (b!"FooBar" ++ b!".txt")) =
     some (b!"my-" ++ (b!"BazQux" ++ b!".txt")) :=
-  same_style_name T0 _ vm0 b!"my-" b!".txt" b!"FooBar" b!"BazQux" (by decide) (by decide +kernel)
+  same_style_name T0first _ vm0 b!"my-" b!".txt" b!"FooBar" b!"BazQux" (by decide) rfl (by decide +kernel)
     (by decide +kernel) (by decide +kernel) (Or.inl rfl) (by decide)
+
+/-- … and so are those of `same_style_name_all_variants` and `no_variant_left` -/
+example : newNameFor T0all { o0 with coerce := false } vm0 (b!"my-" ++ (b!"FooBar" ++ b!".txt")) =
+    some (b!"my-" ++ (b!"BazQux" ++ b!".txt")) :=
+  same_style_name_all_variants T0all _ vm0 b!"my-" b!".txt" b!"FooBar" b!"BazQux" rfl rfl (by decide +kernel)
+    (by decide +kernel) (by decide +kernel) (by decide +kernel) (Or.inl rfl) (by decide)
+
+example : Rewritten vm0 b!"foo_bar-FooBar.txt" b!"baz_qux-BazQux.txt" :=
+  no_variant_left T0all o0 vm0 _ _ rfl rfl (Or.inr (by decide +kernel)) (by decide +kernel)
 
 /-- two siblings with one destination: the plan is refused (one conflict), nothing is planned -/
 theorem example_refused :
@@ -505,6 +647,28 @@ theorem overlapping_roots_before_and_after_fix :
     planRenames T0 o0 vm0 t [[b!"proj", b!"sub"], [b!"proj"]] = .ok [r] ∧
     (applyPlan t ⟨[], [r]⟩).outcome = .ok := by decide +kernel
 
+/-- BEFORE / AFTER 0109402 (finding `cross_root_shared_destination`, repaired): two FILES given as search paths,
+    `foo_bar.txt` and `foo-bar.txt`, replacement `baz`.  Every root is conflict-free on its own; without the check
+    of the merged list both renames to `baz.txt` are planned, the pre-flight passes (the destination does not exist
+    yet), STEP 3 reports success and one of the two files is gone.  With the check the scan is refused. -/
+theorem cross_root_before_and_after_fix :
+    let t : Tree := [([b!"proj"], .dir 493), ([b!"proj", b!"foo_bar.txt"], .file b!"A" 420),
+                     ([b!"proj", b!"foo-bar.txt"], .file b!"B" 420)]
+    let vm : List VEntry := [⟨b!"foo-bar", b!"baz", none⟩, ⟨b!"foo_bar", b!"baz", none⟩]
+    let roots : List Path := [[b!"proj", b!"foo_bar.txt"], [b!"proj", b!"foo-bar.txt"]]
+    let r1 : Ren := ⟨[b!"proj", b!"foo_bar.txt"], [b!"proj", b!"baz.txt"], .file⟩
+    let r2 : Ren := ⟨[b!"proj", b!"foo-bar.txt"], [b!"proj", b!"baz.txt"], .file⟩
+    planMulti { T0 with crossRootCheck := false } o0 vm (roots.map (entriesOf t)) = .ok [r1, r2] ∧
+    preflightOk t [r1, r2] = true ∧
+    (applyPlan t ⟨[], [r1, r2]⟩).outcome = .ok ∧
+    (applyPlan t ⟨[], [r1, r2]⟩).tree.length = 2 ∧
+    planMulti { T0 with crossRootCheck := true } o0 vm (roots.map (entriesOf t)) = .error 1 ∧
+    -- sibling directory roots collide in the same way
+    planMulti { T0 with crossRootCheck := true } o0 vm
+      ([[b!"proj", b!"foo_bar"], [b!"proj", b!"foo-bar"]].map
+        (entriesOf [([b!"proj"], .dir 493), ([b!"proj", b!"foo_bar"], .dir 493), ([b!"proj", b!"foo-bar"], .dir 493)]))
+      = .error 1 := by decide +kernel
+
 /-- `apply_places_everything` is not vacuous for nested roots: the example tree with the roots `proj`,
     `proj/foo_bar` and `proj` again gives the same plan (the nested root itself is not renamed: it is a root) -/
 example : ∃ rs, planRenames T0 o0 vm0 exTree [[b!"proj"], [b!"proj", b!"foo_bar"], [b!"proj"]] = .ok rs ∧
@@ -523,11 +687,27 @@ theorem C08_witness_coercion_restyles_term :
     newNameFor T0 { o0 with coerce := false } vm0 b!"FOO_BAR_test.rs" = some b!"BAZ_QUX_test.rs" := by
   decide +kernel
 
-/-- WITNESS (finding `two_styles_in_one_name`): only the first key in map order is rewritten (`FooBar` sorts
-    before `foo_bar`); when coercion applies its case-insensitive replace rewrites both in one style. -/
+/-- WITNESS (finding `two_styles_in_one_name`), on the shape "first key only" — the source as long as
+    `Gen.renameAllVariantsInName = false`: only the first key in map order is rewritten (`FooBar` sorts before
+    `foo_bar`), the other occurrence keeps the old term. -/
 theorem C08_witness_two_styles_in_one_name :
-    newNameFor T0 o0 vm0 b!"foo_bar-FooBar.txt" = some b!"foo_bar-BazQux.txt" ∧
-    newNameFor T0 o0 vm0 b!"foo_bar_FOO_BAR.txt" = some b!"baz_qux_baz_qux.txt" := by decide +kernel
+    newNameFor T0first o0 vm0 b!"foo_bar-FooBar.txt" = some b!"foo_bar-BazQux.txt" ∧
+    newNameFor T0first o0 vm0 b!"FooBar.foo-bar.d" = some b!"BazQux.foo-bar.d" := by decide +kernel
+
+/-- … and on the shape "every variant" (seeded/_fixes/c08_all_variants_in_name.diff): both occurrences are rewritten,
+    each in its own style; single-style names, plural suffixes and everything coercion decides are unchanged
+    (`foo_bar_FOO_BAR.txt` is still coerced to snake: finding `coercion_restyles_term`, by design). -/
+theorem two_styles_all_variants :
+    newNameFor T0all o0 vm0 b!"foo_bar-FooBar.txt" = some b!"baz_qux-BazQux.txt" ∧
+    newNameFor T0all o0 vm0 b!"FooBar.foo-bar.d" = some b!"BazQux.baz-qux.d" ∧
+    newNameFor T0all o0 vm0 b!"foo_bars.tar.gz" = newNameFor T0first o0 vm0 b!"foo_bars.tar.gz" ∧
+    newNameFor T0all o0 vm0 b!"foo_bar_FOO_BAR.txt" = some b!"baz_qux_baz_qux.txt" ∧
+    newNameFor T0first o0 vm0 b!"foo_bar_FOO_BAR.txt" = some b!"baz_qux_baz_qux.txt" ∧
+    newNameFor T0all o0 vm0 b!"my_fooBar.txt" = some b!"my_baz_qux.txt" ∧
+    -- a two-style name that coercion takes over keeps its second occurrence in both shapes (coercion replaces the
+    -- first key case-insensitively and overrides the scan): part of `coercion_restyles_term`
+    newNameFor T0all o0 vm0 b!"fooBar_foo_bar" = some b!"baz_qux_foo_bar" ∧
+    newNameFor T0first o0 vm0 b!"fooBar_foo_bar" = some b!"baz_qux_foo_bar" := by decide +kernel
 
 /-- FLAGS (since 4ad17ef; finding `no_rename_files_renames_symlinks` repaired): with `rename_files = false`
     only directories are planned — regular files and symlinks alike are left alone — and with
